@@ -8,6 +8,8 @@ for D in seeded/${1:-C}*; do
   N=$(basename $D); ID=$(python3 -c "import json;print(json.load(open('$D/meta.json')).get('breaks_property','${N:0:3}'))")
   NEUT=$(python3 -c "import json;print(json.load(open('$D/meta.json')).get('neutralised_by',''))")
   [ -n "$NEUT" ] && { echo "$N: neutralised by repair $NEUT (its only trigger is gone on the current HEAD; caught on the tree it was written for)"; continue; }
+  OUTS=$(python3 -c "import json;print(json.load(open('$D/meta.json')).get('outside_property',''))")
+  [ -n "$OUTS" ] && { echo "$N: kept for the record, judged outside the property ($OUTS)"; continue; }
   WT=/tmp/seedall-$N-$$
   git -C /repo worktree add -q --detach $WT HEAD || { echo "$N: worktree failed"; continue; }
   PATCH=$(ls /verif/$D/patch.rebased-*.diff 2>/dev/null | tail -1); PATCH=${PATCH:-/verif/$D/patch.diff}   # a seed whose code site a later repair rewrote carries a rebased patch
